@@ -166,11 +166,22 @@ def check_copy_iteration(check, an: Analysis, rule: str):
                        ('_await_children', 'self._children')):
         callee = an.callee(SCOPE, name)
         verdict, n_iter, bad, closes = True, 0, None, 0
+        skipped = None
         for path in an.paths(callee):
             for it in rules.iterations(path):
                 if '_children' not in it.source:
                     continue
                 n_iter += 1
+                if name != '_await_children' and skipped is None and not any(
+                        is_call_to(event, '__close__') or (
+                            event.kind in ('call', 'enter')
+                            and isinstance(event.node, ast.Call)
+                            and isinstance(event.node.func, ast.Attribute)
+                            and event.node.func.attr == '__close__')
+                        for _i, event in it.events()):
+                    # a pass of the closing loop that leaves its child alone (a child that
+                    # was spawned but has not run yet must be closed too)
+                    skipped = (path, it.start)
                 if it.source != attr:
                     continue  # a copy: .copy(), [:], list(...), tuple(...)
                 for index, event in it.events():
@@ -192,8 +203,10 @@ def check_copy_iteration(check, an: Analysis, rule: str):
                        'are walked instead (%d iterations on paths)' % (attr, n_iter),
                        path=rules.path_lines(*bad) if bad else None, analysed=n_iter)
         if name != '_await_children':
-            check.instance(rule, '%s:closes-each' % name, closes > 0, where_fn(callee.fn),
-                           'each child of the list is closed')
+            check.instance(rule, '%s:closes-each' % name, closes > 0 and skipped is None,
+                           where_fn(callee.fn), 'each child of the list is closed, whatever '
+                           'state it is in: no pass of the loop leaves its child alone',
+                           path=rules.path_lines(*skipped) if skipped else None)
 
 
 def run(check, an: Analysis):
